@@ -54,6 +54,7 @@ import (
 
 	"github.com/golang/groupcache/lru"
 	"github.com/google/inverting-proxy/agent/metrics"
+	"github.com/google/inverting-proxy/verifhook"
 	"github.com/google/uuid"
 	"golang.org/x/net/publicsuffix"
 )
@@ -112,6 +113,7 @@ func (w *sessionResponseWriter) WriteHeader(statusCode int) {
 		w.wrapped.WriteHeader(statusCode)
 		return
 	}
+	verifhook.At("sessions.jar.store")
 	cookieJar.SetCookies(w.urlForCookies, cookiesToAdd)
 	w.wrapped.WriteHeader(statusCode)
 }
@@ -217,6 +219,7 @@ func (c *Cache) addJarToCache(sessionID string, jar http.CookieJar) {
 
 // cachedCookieJar returns the CookieJar mapped to the sessionID
 func (c *Cache) cachedCookieJar(sessionID string) (jar http.CookieJar, err error) {
+	verifhook.At("sessions.jar.lookup")
 	// The LRU cache is not safe for concurrent use (even lookups modify it), and
 	// concurrent requests for the same new session must end up sharing one jar.
 	c.mu.Lock()
